@@ -672,7 +672,8 @@ def unify(expected, actual, local_names, binds=None):
         if expected.id == actual.id and expected.id not in binds and \
                 actual.id not in binds.values():
             return binds
-        if actual.id in local_names:
+        if actual.id in local_names and expected.id not in getattr(
+                local_names, "fixed", ()):
             if expected.id in binds:
                 return binds if binds[expected.id] == actual.id else None
             if actual.id in binds.values():
@@ -718,6 +719,10 @@ def unify(expected, actual, local_names, binds=None):
     return binds
 
 
+class _LocalNames(set):
+    fixed = frozenset()
+
+
 class StmtText(str):
     """The statements of a function as one line of text; ``x in text`` is
     true if ``x`` occurs literally *or* if x parses as an expression /
@@ -730,7 +735,20 @@ class StmtText(str):
         inst = str.__new__(cls, " ".join(src(s) for s in stmts))
         inst.node = node
         inst.stmts = stmts
-        inst.locals = _locals_of(node)
+        inst.locals = _LocalNames(_locals_of(node))
+        # names the function uses that are *not* its locals (parameters,
+        # globals, builtins, self): an expected text naming one of them
+        # means that very name
+        used = {n.id for n in ast.walk(node) if isinstance(n, ast.Name)}
+        params = set()
+        if isinstance(node, (ast.FunctionDef, ast.Lambda)):
+            a = node.args
+            params = {x.arg for x in a.posonlyargs + a.args + a.kwonlyargs}
+            if a.vararg:
+                params.add(a.vararg.arg)
+            if a.kwarg:
+                params.add(a.kwarg.arg)
+        inst.locals.fixed = (used - set(inst.locals)) | params
         return inst
 
     def _parse(self, text):
